@@ -1205,6 +1205,9 @@ void SPxSolverBase<R>::setType(Type tp)
       {
          SPxLPBase<R>::operator=(base);
          SPxBasisBase<R>::operator=(base);
+         random = base.random;
+         solvingForBoosted = base.solvingForBoosted;
+         storeBasisSimplexFreq = base.storeBasisSimplexFreq;
          theType = base.theType;
          thePricing = base.thePricing;
          theRep = base.theRep;
@@ -1502,6 +1505,10 @@ void SPxSolverBase<R>::setType(Type tp)
       , spxout(base.spxout)
       , integerVariables(base.integerVariables)
    {
+      random = base.random;
+      solvingForBoosted = base.solvingForBoosted;
+      storeBasisSimplexFreq = base.storeBasisSimplexFreq;
+
       theTime = TimerFactory::createTimer(timerType);
       multTimeSparse = TimerFactory::createTimer(timerType);
       multTimeFull = TimerFactory::createTimer(timerType);
